@@ -673,11 +673,11 @@ func (w *World) guardLeaves(p *packages.Package, fd ast.Node, e ast.Expr, out le
 
 // limit1Exceptions: sites bounded by construction; keyed function + leaf.
 var limit1Exceptions = map[string]string{
-	"builtinTypeName|call:TypeName":              "TypeName() results are short constant names",
-	"MapIterator.Key|elem-of:i.k":                      "an existing map key (already a script string)",
+	"builtinTypeName|call:TypeName":               "TypeName() results are short constant names",
+	"MapIterator.Key|elem-of:i.k":                 "an existing map key (already a script string)",
 	"BuiltinModule.AsImmutableMap|var:moduleName": "module name supplied by the embedder / import expression, not produced by an operator or builtin",
-	"FromInterface|call:Error":                   "host boundary: error text supplied by the embedding program",
-	"builtinFormat|call:Format":                  "Format enforces MaxStringLen on its own output buffer (LIMIT.2)",
+	"FromInterface|call:Error":                    "host boundary: error text supplied by the embedding program",
+	"builtinFormat|call:Format":                   "Format enforces MaxStringLen on its own output buffer (LIMIT.2)",
 }
 
 func ruleLIMIT1(c *Ctx) {
